@@ -29,6 +29,8 @@ Fans_012 == {<<>>, <<0>>, <<0, 1>>}
 Fans_find == {<<>>, <<0>>, <<1>>, <<0, 1>>}
 Fans_1 == {<<0>>}
 Fans_01 == {<<>>, <<0>>, <<1>>}
+Fans_0x == {<<>>, <<0>>}          \* survive or not
+Fans_m == {<<0>>, <<1>>}          \* match or not
 NoCrash == {<<-1, 0>>}
 \* the first closure panics on source position 0, 1, 2 or 3
 CrashStage1 == {<<1, 0>>, <<1, 1>>, <<1, 2>>, <<1, 3>>}
